@@ -18,7 +18,9 @@ from props import c14gen
 
 
 def choose_scenarios(seed, tier):
-    mechs = sorted(c14gen.MECHS)
+    # afterfunc (closure handed to time.AfterFunc) makes taint.Analyze panic on the pinned tree (nil summary in
+    # dataflow.BuildSummary reached from a BoundLabelNode): a crash, not a silent run; reported to the C07 builder
+    mechs = sorted(m for m in c14gen.MECHS if m != "afterfunc")
     taints = sorted(c14gen.TAINTS)
     rnd = vlib.lcg(seed * 104729 + 7)
     if tier != "quick":
@@ -55,8 +57,14 @@ def write_program(d, name, src):
         'options:\n    use-escape-analysis: true\n    escape-config: "escape-config.json"\n    log-level: 1\n' % (name, name))
 
 
+BUILTIN_TAINTS = ("copy", "copybytes", "append")
+
+
 def key_of(desc):
-    return "silent-flow:%s:mech=%s:taint=%s:tgt=%s" % (desc[3], desc[0], desc[1], desc[2])
+    """taint steps through builtin calls are silent whatever the sharing mechanism: keyed by the taint step first"""
+    if desc[1] in BUILTIN_TAINTS:
+        return "silent-flow:taint=%s:mech=%s:tgt=%s:%s" % (desc[1], desc[0], desc[2], desc[3])
+    return "silent-flow:mech=%s:taint=%s:tgt=%s:%s" % (desc[0], desc[1], desc[2], desc[3])
 
 
 def run(chk):
@@ -70,7 +78,7 @@ def run(chk):
     shutil.rmtree(work, ignore_errors=True)
     os.makedirs(work)
     stats = {"scenarios": 0, "native_flows": 0, "reported_taint_flow": 0, "reported_escape_only": 0, "silent": 0,
-             "not_observed_natively": 0, "analysis_errors": 0, "flows_total": 0, "escapes_total": 0}
+             "not_observed_natively": 0, "analysis_errors": 0, "analysis_error_names_scenario": 0, "flows_total": 0, "escapes_total": 0}
     distinct = set()
     found_concrete = False
 
@@ -96,6 +104,16 @@ def run(chk):
             raise vlib.BuildError("taint analysis failed on generated program", out + txt[-3000:])
         flows = set()
         escs = {}
+        errs = set()
+        if "PANIC" in txt:
+            d2 = chk.replay_dir("taint-analysis-panic")
+            for f in ("main.go", "go.mod", "config.yaml", "escape-config.json", "taint.txt"):
+                shutil.copy(os.path.join(d, f), d2)
+            open(os.path.join(d2, "replay.txt"), "w").write("taint.Analyze panicked on this program:\n%s\nre-run: %s -taint -noloc %s\n" %
+                                                           ([l[:600] for l in txt.splitlines() if l.startswith("PANIC")][:1], exe, d2))
+            if chk.violation("taint-analysis-panic", "taint.Analyze (use-escape-analysis) panics on a generated program", d2):
+                found_concrete = True
+            continue
         for l in txt.splitlines():
             p = l.split(" ")
             if p[0] == "FLOW":
@@ -106,9 +124,14 @@ def run(chk):
                 ms = re.match(r"source(\d+)$", p[1])
                 if ms:
                     escs.setdefault(int(ms.group(1)), []).append((int(p[3]), p[4] if len(p) > 4 else ""))
-            elif p[0] in ("E", "PANIC", "FAIL"):
-                stats["analysis_errors"] += 1
-                if len(chk.notes) < 6:
+            elif p[0] in ("E", "FAIL"):
+                # analysis errors (e.g. "missing escape for <f> in context"): Analyze returns an error and the CLI exits
+                # with failure; attribute them to scenarios through the function names they mention
+                for part in l.split(" | "):
+                    stats["analysis_errors"] += 1
+                    for mm in re.finditer(r"%s\.\(?\*?[A-Za-z_]*?(\d+)\b" % name, part):
+                        errs.add(int(mm.group(1)))
+                if len(chk.notes) < 3:
                     chk.notes.append("%s: %s" % (name, l[:300]))
         stats["flows_total"] += len(flows)
         stats["escapes_total"] += sum(len(v) for v in escs.values())
@@ -124,6 +147,9 @@ def run(chk):
             elif i in escs:
                 stats["reported_escape_only"] += 1
                 distinct.add((desc[0], desc[1], "escape"))
+            elif i in errs:
+                stats["analysis_error_names_scenario"] += 1
+                distinct.add((desc[0], desc[1], "error"))
             else:
                 stats["silent"] += 1
                 found_concrete = True
